@@ -1,61 +1,16 @@
--- root of the `Resolved` library: every model, spec, proof and property module
+-- root of the `Resolved` library: generated constants, every model and spec module
 import Resolved.Generated
-import Resolved.Props.C01
-import Resolved.Props.C02
-import Resolved.Props.C03
-import Resolved.Props.C04
-import Resolved.Props.C05
-import Resolved.Props.C06
-import Resolved.Props.C07
-import Resolved.Props.C08
-import Resolved.Props.C09
-import Resolved.Props.C10
-import Resolved.Props.C12
-import Resolved.Props.C15
-import Resolved.Props.C16
-import Resolved.Props.C18
-import Resolved.Props.C19
-import Resolved.Spec.CacheSpec
-import Resolved.Spec.RefDecode
-import Resolved.Spec.UpstreamSpec
-import Resolved.Spec.Wire
-import Resolved.Spec.ZoneSpec
 import Resolved.Model.Cache
+import Resolved.Model.Hosts
 import Resolved.Model.Name
 import Resolved.Model.Resolver
 import Resolved.Model.Server
 import Resolved.Model.Upstream
 import Resolved.Model.Wire
 import Resolved.Model.Zone
-import Resolved.Proofs.CacheAssoc
-import Resolved.Proofs.CacheHistory
-import Resolved.Proofs.CacheInv
-import Resolved.Proofs.CacheLemmas
-import Resolved.Proofs.CacheOps
-import Resolved.Proofs.CachePrune
-import Resolved.Proofs.CachePruneSpec
-import Resolved.Proofs.CacheRun
-import Resolved.Proofs.CacheStore
-import Resolved.Proofs.CacheUpsert
-import Resolved.Proofs.NameLemmas
-import Resolved.Proofs.UpstreamFollow
-import Resolved.Proofs.UpstreamLemmas
-import Resolved.Proofs.UpstreamSpecLemmas
-import Resolved.Proofs.WireDecodeLemmas
-import Resolved.Proofs.WireEncodeDec
-import Resolved.Proofs.WireEncodeGrammar
-import Resolved.Proofs.WireEncodeLemmas
-import Resolved.Proofs.WireEncodeMsg
-import Resolved.Proofs.WireEncodeName
-import Resolved.Proofs.WireEncodeReencode
-import Resolved.Proofs.ZoneClassify
-import Resolved.Proofs.ZoneInsertLemmas
-import Resolved.Proofs.ZoneLemmas
-import Resolved.Proofs.ZoneListLemmas
-import Resolved.Proofs.ZoneMain
-import Resolved.Proofs.ZoneMergeLemmas
-import Resolved.Proofs.ZoneOps
-import Resolved.Proofs.ZoneRefine
-import Resolved.Proofs.ZoneRepr
-import Resolved.Proofs.ZoneSpecLemmas
-import Resolved.Proofs.ZoneUnion
+import Resolved.Spec.CacheSpec
+import Resolved.Spec.HostsSpec
+import Resolved.Spec.RefDecode
+import Resolved.Spec.UpstreamSpec
+import Resolved.Spec.Wire
+import Resolved.Spec.ZoneSpec
